@@ -476,11 +476,11 @@ pub fn run(cfg: &Cfg) -> i32 {
         out.end(&id);
     }
     if cfg.shard == 0 && out.begin("pinned-discarded-argument") {
-        let text = "(mod (a b)\n  (include *standard-cl-21*)\n  (defun ig (X) 17)\n  (c (ig (+ a 1)) b))\n";
-        let params = Pat::flat(&[("a".to_string(), Ty::Int), ("b".to_string(), Ty::Int)], None);
+        let text = "(mod (p0 p1)\n  (include *standard-cl-21*)\n  (defun ig (X) 17)\n  (c (ig (+ p0 1)) p1))\n";
+        let params = Pat::flat(&[("p0".to_string(), Ty::Int), ("p1".to_string(), Ty::Int)], None);
         judge_program(&mut out, &mut rng, cfg, "pinned-discarded-argument", text, &params, Dialect::Cl21, false, &[], &[], None);
-        let text2 = "(mod (a b)\n  (include *standard-cl-21*)\n  (let ((v a)) (if b v 5)))\n";
-        let twin2 = "(mod (a b)\n  (include *standard-cl-21*)\n  (defun-inline ll_0 (v b) (if b v 5))\n  (ll_0 a b))\n";
+        let text2 = "(mod (p0 p1)\n  (include *standard-cl-21*)\n  (let ((v p0)) (if p1 v 5)))\n";
+        let twin2 = "(mod (p0 p1)\n  (include *standard-cl-21*)\n  (defun-inline ll_0 (v p1) (if p1 v 5))\n  (ll_0 p0 p1))\n";
         judge_program(&mut out, &mut rng, cfg, "pinned-let-bound-use-in-branch", text2, &params, Dialect::Cl21, false, &[], &[], Some(twin2));
         out.end("pinned-discarded-argument");
     }
